@@ -265,7 +265,27 @@ func checkC03(w *World, r *Report) {
 				}
 				return false
 			}
-			r.Check(dominatedByCond(fn, c, isGuard, true), "R03.3", key, pos,
+			guardedHere := dominatedByCond(fn, c, isGuard, true)
+			if !guardedHere {
+				// the channel may come from a lookup helper: h(..., protocol, ...) returns a channel only on a path
+				// where protocol == "/"+Name() of that very element holds
+				for _, root := range provenance(recv, provOpts{}) {
+					call, ok := root.(*ssa.Call)
+					if !ok {
+						continue
+					}
+					h := call.Call.StaticCallee()
+					if h == nil || !inModule(h) {
+						continue
+					}
+					for ai, a := range call.Call.Args {
+						if a == ssa.Value(protocol) && c03LookupByExactName(h, ai) {
+							guardedHere = true
+						}
+					}
+				}
+			}
+			r.Check(guardedHere, "R03.3", key, pos,
 				"OpenConnection is control-dependent on protocol == \"/\"+Name() of the channel being opened",
 				"OpenConnection is not guarded by an exact equality between the requested protocol and \"/\"+Name() of the same channel: a request can be routed to a channel it did not name")
 		}
@@ -836,4 +856,84 @@ func c03Register(w *World, r *Report) {
 		bad = "no protocol negotiation (Handle/Negotiate) found in package server"
 	}
 	r.Check(bad == "", "R03.6", key, pos, fmt.Sprintf("%d registration(s) \"/\"+Name() over the session's own channel list handled by muxHandler, %d negotiation(s), all on a muxer created for the stream/connection", n, nneg), bad)
+}
+
+// c03LookupByExactName: every non-nil result of h is an element e returned on a path where
+// param[pidx] == "/"+e.Name() was found true.
+func c03LookupByExactName(h *ssa.Function, pidx int) bool {
+	if len(h.Blocks) == 0 || pidx >= len(h.Params) {
+		return false
+	}
+	prm := h.Params[pidx]
+	sameElem := func(a, b ssa.Value) bool {
+		if a == b {
+			return true
+		}
+		ua, ok1 := a.(*ssa.UnOp)
+		ub, ok2 := b.(*ssa.UnOp)
+		if !ok1 || !ok2 {
+			return false
+		}
+		ia, ok1 := ua.X.(*ssa.IndexAddr)
+		ib, ok2 := ub.X.(*ssa.IndexAddr)
+		if !ok1 || !ok2 || ia.Index != ib.Index {
+			return false
+		}
+		if ia.X == ib.X {
+			return true
+		}
+		la, ok1 := ia.X.(*ssa.UnOp)
+		lb, ok2 := ib.X.(*ssa.UnOp)
+		if !ok1 || !ok2 {
+			return false
+		}
+		fa, fb := asFieldAddr(la.X), asFieldAddr(lb.X)
+		return fa != nil && fb != nil && fa.X == fb.X && fa.Field == fb.Field
+	}
+	okAll, nret := true, 0
+	done := enumPaths(h, nil, nil, nil, func(e pathExit) {
+		ret, isRet := e.Last.(*ssa.Return)
+		if !isRet || len(ret.Results) == 0 {
+			return
+		}
+		rv := e.State.Resolve(ret.Results[0])
+		if isConstNil(rv) {
+			return
+		}
+		if mi, ok := rv.(*ssa.MakeInterface); ok {
+			rv = mi.X
+		}
+		nret++
+		found := false
+		for v, t := range e.State.Facts {
+			b, ok := v.(*ssa.BinOp)
+			if !ok || b.Op != token.EQL || !t {
+				continue
+			}
+			for _, pair := range [][2]ssa.Value{{b.X, b.Y}, {b.Y, b.X}} {
+				if pair[0] != ssa.Value(prm) {
+					continue
+				}
+				add, ok := pair[1].(*ssa.BinOp)
+				if !ok || add.Op != token.ADD {
+					continue
+				}
+				cst, ok := add.X.(*ssa.Const)
+				if !ok || cst.Value == nil || cst.Value.Kind() != constant.String || constant.StringVal(cst.Value) != "/" {
+					continue
+				}
+				nc, ok := add.Y.(*ssa.Call)
+				if !ok || !nc.Call.IsInvoke() || nc.Call.Method.Name() != "Name" {
+					continue
+				}
+				if sameElem(nc.Call.Value, rv) {
+					found = true
+				}
+			}
+		}
+		if !found {
+			okAll = false
+		}
+	})
+	return done && okAll && nret > 0
 }
